@@ -20,7 +20,7 @@ CORPUS = [
 """, "        assert self._local_key is not None\n"),
     M("explicit-valueerror", L, '            raise ProtocolError(f"Unexpected type: {packet_type}")', '            raise ValueError(f"Unexpected type: {packet_type}")'),
     M("producer-invariant-lost", L, 'total_size = int.from_bytes(buf[2:4], "big") + 8', 'total_size = int.from_bytes(buf[2:4], "big")',
-      also=[(L, "                if len(buf) < 6:\n", "                if len(buf) < 4:\n")]),
+      also=[(L, "                if len(buf) < 6:\n                    _LOGGER.warning(\n                        \"Peer %s: Buffer too short.", "                if len(buf) < 4:\n                    _LOGGER.warning(\n                        \"Peer %s: Buffer too short.")]),
     M("send-handler-narrowed", L, "            except ProtocolError as e:\n                # Disconnect on protocol errors and reraise",
       "            except AuthenticationError as e:\n                # Disconnect on protocol errors and reraise", "S"),  # still ProtocolError escaping: allowed
     M("device-catch-narrowed", B, "        except ProtocolError as e:\n            _LOGGER.error(\"Network error", "        except AuthenticationError as e:\n            _LOGGER.error(\"Network error"),
